@@ -14,6 +14,7 @@
    Executable definitions only; the theorems are in Proofs/SerdeProofs.v. *)
 From Coq Require Import List NArith ZArith Bool.
 From PV Require Import Lib.ListX Model.Json Model.VersionReq.
+From PV Require Model.FloatRyu.   (* C08's binary64 rounding and shortest-digits model, read-only, qualified *)
 Import ListNotations.
 
 Inductive codec := CSpan | CIdent | CVersionReq.
@@ -124,13 +125,17 @@ Definition ident_de (j : json) : option (list str * str) :=
   end.
 
 (* serde_json gives an integer token to a visitor that expects f64 as `z as f64` (visit_i64 / visit_u64 of the f64
-   primitive visitor).  Up to 2^53 the conversion is exact and the shortest round-trip text of the result is the decimal
-   text of the integer followed by `.0` (ryu switches to exponent form only from 1e16); larger integers round and are not
-   modelled (None). *)
+   primitive visitor; an integer beyond u64 / below i64 is already lexed as an f64): the binary64 nearest to z, ties to even.
+   A float is identified with its shortest round-trip text.  Up to 2^53 the conversion is exact and that text is the decimal
+   text of the integer followed by `.0`; beyond, C08's model gives the rounding and the shortest digits
+   (FloatRyu.emit_float_ryu: round64 then shortest, in Rust's {:?} layout -- which is ryu's for values >= 1e-4: `.0` below
+   1e16, exponent form from 1e16).  None: the integer rounds to infinity (serde_json: `number out of range`). *)
 Definition two53 : Z := 9007199254740992%Z.
 Definition int_is_exact_float (z : Z) : bool := (Z.abs z <=? two53)%Z.
-Definition int_float_repr (z : Z) : str :=
-  (if (z <? 0)%Z then [45%N] else []) ++ print_dec (Z.abs_N z) ++ [46%N; 48%N].
+Definition sign_prefix (z : Z) : str := if (z <? 0)%Z then [45%N] else [].
+Definition int_float_repr (z : Z) : option str :=
+  if int_is_exact_float z then Some (sign_prefix z ++ print_dec (Z.abs_N z) ++ [46%N; 48%N])
+  else option_map (app (sign_prefix z)) (FloatRyu.emit_float_ryu (Z.abs_N z) 0%Z).
 
 (* HashMap::insert: a later entry with the same key replaces the value (the map keeps one entry per key) *)
 Fixpoint insert_kv {A : Type} (k : str) (v : A) (l : list (str * A)) : list (str * A) :=
@@ -383,7 +388,7 @@ Section WithEnv.
 
     Definition de_prim (d : desc) (j : json) : option value :=
       match d, j with
-      | DFloat, JNum (NInt z) => if int_is_exact_float z then Some (VFloat (FFin (int_float_repr z))) else None
+      | DFloat, JNum (NInt z) => option_map (fun r => VFloat (FFin r)) (int_float_repr z)
       | DStr, JStr s => Some (VStr s)
       | DInt lo hi, JNum (NInt z) => if (Z.leb lo z && Z.leb z hi)%bool then Some (VInt z) else None
       | DFloat, JNum (NFloat r) => Some (VFloat (FFin r))
